@@ -397,11 +397,16 @@ def in_known_class(c):
 
 
 def compare(c, iv, mv):
+    d = style_oracle(c, iv) if c[0] == 0 else proc_oracle(c, iv)[0]
+    if d is not None:
+        return d + ("" if iv == mv else " [model: %r]" % (mv,))
     if iv != mv:
-        return "impl %r != model %r" % (iv, mv)
-    if c[0] == 0:
-        return style_oracle(c, iv)
-    return proc_oracle(c, iv)[0]
+        # the property holds on this case but the bytes are not the model's (e.g. another colour for a
+        # level): the model no longer describes the code -- DESIGN 2.4, broken correspondence
+        import vcommon
+        raise vcommon.Broken("corr:C18/stream-bytes",
+                             "property oracle passes but impl %r != model %r on case %r" % (iv, mv, describe(c)))
+    return None
 
 
 def known_finding(c, iv, mv):
